@@ -1,8 +1,10 @@
 package engine
 
 import (
+	"fmt"
 	"go/ast"
 	"math/big"
+	"strings"
 
 	"golang.org/x/tools/go/ssa"
 )
@@ -27,4 +29,27 @@ func bigRefOfModifies(ev *SpecEnv, e ast.Expr) *Term {
 		return pv.Ref
 	}
 	return nil
+}
+
+// useUFun declares an uninterpreted function in the queries of this function and pulls in the axioms.
+func (ex *Exec) useUFun(uf *UFun) {
+	if _, ok := ex.Funs["0uf_"+uf.Name]; ok {
+		return
+	}
+	ex.Funs["0uf_"+uf.Name] = fmt.Sprintf("(declare-fun %s (%s) %s)", uf.Name, strings.Join(uf.Args, " "), uf.Res)
+	if ex.axiomsDone {
+		return
+	}
+	ex.axiomsDone = true
+	// all ufuns are declared as soon as one is used (axioms may relate several)
+	for _, o := range ex.P.CS.UFuns {
+		ex.Funs["0uf_"+o.Name] = fmt.Sprintf("(declare-fun %s (%s) %s)", o.Name, strings.Join(o.Args, " "), o.Res)
+	}
+	st := &State{Cells: map[*Cell]Val{}, Mem: map[*Region]*Term{}, Ghost: map[string]*Term{}}
+	st.Big = Sym("heap0", ArraySort(IntSort, IntSort))
+	for _, ax := range ex.P.CS.Axioms {
+		env := &SpecEnv{ex: ex, st: st, vars: map[string]Val{}}
+		ex.Axioms = append(ex.Axioms, env.termBool(ax.Expr))
+		ex.AxiomNames = append(ex.AxiomNames, ax.Name)
+	}
 }
